@@ -1138,6 +1138,11 @@ impl DataArc {
     }
 }
 
+thread_local! {
+    /// The pairs of values whose comparison is in progress on this thread, see [DataArc::eq].
+    static COMPARING: std::cell::RefCell<Vec<(usize, usize)>> = const { std::cell::RefCell::new(Vec::new()) };
+}
+
 impl PartialEq for DataArc {
     fn eq(&self, other: &Self) -> bool {
         // It's really important to check first of both arc reference the same object, otherwise the compare
@@ -1145,12 +1150,22 @@ impl PartialEq for DataArc {
         if Arc::ptr_eq(&self.arc, &other.arc) {
             return true;
         }
+        // A value can contain itself ("a[0] = a"). Comparing two such values comes back to the same
+        // pair again and again: a pair that is already being compared further up counts as equal,
+        // the outcome is decided by the other members.
+        let pair = (Arc::as_ptr(&self.arc) as usize, Arc::as_ptr(&other.arc) as usize);
+        if COMPARING.with(|c| c.borrow().contains(&pair)) {
+            return true;
+        }
         // Don't hold any lock while the contents are compared: the elements of one side may be
         // reachable from the other side as well (e.g. "a == a[0]" for a nested array), and locking
         // such a value a second time would block forever.
         let left = self.arc.lock().unwrap().clone();
         let right = other.arc.lock().unwrap().clone();
-        left.eq(&right)
+        COMPARING.with(|c| c.borrow_mut().push(pair));
+        let result = left.eq(&right);
+        COMPARING.with(|c| c.borrow_mut().pop());
+        result
     }
 }
 
